@@ -3,6 +3,8 @@ CONSTANTS
   Elems <- PoolThorough
   MaxLit = 2
   Depth = 0
+  NLits = 2
+  Steps = {"bin", "with", "without", "where", "coll", "reprint"}
 INVARIANTS TypeOK Laws
 PROPERTIES AppendOnly
 CHECK_DEADLOCK FALSE
